@@ -353,6 +353,11 @@ Definition wit_cluster (k : Z) : cluster := mkCluster 96 [k; 0; 1; 2; 3; 4; 5; 6
 Definition wit_events : list (list cluster) := [[]; []; [wit_cluster 1]; [wit_cluster 2; wit_cluster 3]; [wit_cluster 4]].
 Definition wit_partition : list (list (list cluster)) := [firstn 2 wit_events; skipn 2 wit_events].
 
+Definition dflt_arr : loa crow := mkLoa [] [].
+Definition range_ty (r : option (cgtype * loa crow)) : cgtype := match r with Some (t, _) => t | None => CgUnion [] end.
+Definition range_arr (r : option (cgtype * loa crow)) : loa crow := match r with Some (_, x) => x | None => dflt_arr end.
+Definition basket_or_dflt (r : option cgarr) : cgarr := match r with Some f => f | None => mkCgArr false dflt_arr end.
+
 Theorem cgem_partition_refuted :
   exists (bs : list (list (list cluster))) (a b : nat) ty x full,
     homogeneous 96 (concat bs) /\ (a < b <= length (concat bs))%nat /\
@@ -361,10 +366,11 @@ Theorem cgem_partition_refuted :
     ty <> CgRec (cg_has_y full) /\ ty = CgUnion [false; true].            (* ... the type does not *)
 Proof.
   exists wit_partition, 0%nat, 5%nat.
-  eexists. eexists. eexists.
+  exists (range_ty (cg_read_range wit_partition 0 5)), (range_arr (cg_read_range wit_partition 0 5)),
+         (basket_or_dflt (cg_read_basket (concat wit_partition))).
   split; [repeat constructor|]. split; [simpl; lia|].
   split; [vm_compute; reflexivity|]. split; [vm_compute; reflexivity|].
-  split; [vm_compute; reflexivity|]. split; [discriminate|reflexivity].
+  split; [vm_compute; reflexivity|]. split; [vm_compute; discriminate|vm_compute; reflexivity].
 Qed.
 
 (* reading only the all-empty basket: the interval read has a different type than the slice of the full read *)
@@ -372,4 +378,7 @@ Theorem cgem_interval_refuted :
   exists x full, cg_read_range wit_partition 0 2 = Some (CgRec false, x) /\
                  cg_read_basket (concat wit_partition) = Some full /\ cg_has_y full = true /\
                  to_lists x = firstn 2 (to_lists (cg_arr full)).
-Proof. eexists. eexists. repeat split; vm_compute; reflexivity. Qed.
+Proof.
+  exists (range_arr (cg_read_range wit_partition 0 2)), (basket_or_dflt (cg_read_basket (concat wit_partition))).
+  split; [vm_compute; reflexivity|]. split; [vm_compute; reflexivity|]. split; vm_compute; reflexivity.
+Qed.
